@@ -744,3 +744,73 @@ def scope_probe_eval(prog, draft):
     except Undecided:
         return None
     return out, n_probes
+
+
+class _PkgData:
+    """pkgutil.get_data for the package's own data files, read from the tree under analysis"""
+    def __init__(self, prog):
+        self.root = prog.root
+
+    def get_data(self, package, resource):
+        import os
+        with open(os.path.join(self.root, resource), "rb") as fh:
+            return fh.read()
+
+
+def carriers_eval(prog):
+    """The four draft classes as the package itself builds them (module-level `DraftNValidator = create(...)`, evaluated inside
+    sa/tokeval.py with the real keyword tables and type checkers) on values that are numbers / strings / arrays / objects *to the
+    type checker* without being plain int/float/str/list/dict: Decimal and Fraction (what json.loads(parse_float=Decimal) or a caller
+    delivers), subclasses of str, list and dict (OrderedDict from object_pairs_hook).  Each keyword must see them exactly as it
+    sees the plain value.  -> {clause: message | None} or None."""
+    from collections import OrderedDict
+    from decimal import Decimal
+    from fractions import Fraction
+
+    class Text(str):
+        pass
+
+    class Arr(list):
+        pass
+    out = {"carriers": None}
+    cases = [
+        ({"minimum": 1}, Decimal("0.25"), 1), ({"minimum": 1}, Decimal("1.5"), 0), ({"maximum": 1}, Fraction(3, 2), 1), ({"maximum": 2}, Fraction(3, 2), 0),
+        ({"multipleOf": 2}, Decimal("3"), 1), ({"multipleOf": 2}, Fraction(4, 1), 0), ({"type": "number"}, Decimal("1.5"), 0), ({"type": "string"}, Decimal("1.5"), 1),
+        ({"minLength": 3}, Text("ab"), 1), ({"maxLength": 1}, Text("ab"), 1), ({"pattern": "^a"}, Text("b"), 1), ({"pattern": "^a"}, Text("ab"), 0),
+        ({"minItems": 2}, Arr([1]), 1), ({"maxItems": 1}, Arr([1, 2]), 1), ({"items": {"type": "string"}}, Arr([1, "a", 2]), 2), ({"uniqueItems": True}, Arr([1, 1]), 1),
+        ({"required": ["a"]}, OrderedDict(), 1), ({"minProperties": 1}, OrderedDict(), 1), ({"maxProperties": 1}, OrderedDict([("a", 1), ("b", 2)]), 1),
+        ({"properties": {"a": {"type": "string"}}}, OrderedDict([("a", 1)]), 1), ({"additionalProperties": False}, OrderedDict([("a", 1)]), 1),
+        ({"patternProperties": {"^a": {"type": "string"}}}, OrderedDict([("ab", 1)]), 1), ({"dependencies": {"a": ["b"]}}, OrderedDict([("a", 1)]), 1),
+        ({"enum": [1]}, Decimal("1"), 0), ({"enum": [1]}, Decimal("2"), 1),
+    ]
+    try:
+        for draft, extra in (("Draft3Validator", [({"divisibleBy": 2}, Decimal("3"), 1), ({"properties": {"a": {"required": True}}}, OrderedDict(), 1)]),
+                             ("Draft4Validator", []), ("Draft6Validator", [({"contains": {"type": "string"}}, Arr([1]), 1), ({"propertyNames": {"maxLength": 1}}, OrderedDict([("ab", 1)]), 1),
+                                                                           ({"exclusiveMinimum": 1}, Decimal("1"), 1), ({"const": 1}, Decimal("2"), 1)]),
+                             ("Draft7Validator", [({"if": {"minimum": 1}, "then": {"maximum": 0}}, Decimal("2"), 1), ({"exclusiveMaximum": 1}, Fraction(1, 1), 1)])):
+            ev = Ev(prog, fuel=400000, real_errors=True)
+            Obj.ev = ev
+            ev.ext["pkgutil"] = _PkgData(prog)
+            V = ev.module_value("validators", draft)
+            if not isinstance(V, ClsRef):
+                return None
+            for schema, inst, want in cases + extra:
+                if draft == "Draft3Validator" and ("required" in schema and isinstance(schema["required"], list) or "multipleOf" in schema or "minProperties" in schema
+                                                   or "maxProperties" in schema):
+                    continue
+                if draft in ("Draft3Validator", "Draft4Validator") and ("contains" in schema or "const" in schema or "propertyNames" in schema or "if" in schema):
+                    continue
+                try:
+                    got = len(list(ev.obj_getattr(V(schema), "iter_errors")(inst)))
+                except PyRaise as pr:
+                    out["carriers"] = out["carriers"] or "%s(%r) on %r (a %s) raises %s" % (draft, schema, inst, type(inst).__name__, pr.name)
+                    continue
+                if got != want:
+                    out["carriers"] = out["carriers"] or ("%s(%r) on %r -- a %s, which the draft's own type checker counts as %s -- reports %d errors; on the plain value "
+                                                         "of the same kind it reports %d" % (draft, schema, inst, type(inst).__name__,
+                                                                                            "a number" if isinstance(inst, (Decimal, Fraction)) else "that kind", got, want))
+    except Undecided:
+        return None
+    except PyRaise as pr:
+        out["raises"] = "raises %s (%s)" % (pr.name, pr.msg)
+    return out
